@@ -629,6 +629,9 @@ func runC06(c *Ctx) {
 				if n > 400 {
 					k = 0
 				}
+				if k > 1 && strings.HasPrefix(b.Transport, "http-") && strings.HasSuffix(b.Transport, "-gzip") {
+					k = 1 // message boundaries are not wire offsets inside one gzip stream: single cuts suffice
+				}
 				env.SmallCutSets(n, k, func(cuts []int) { tc.Cuts = cuts; run() })
 			}
 			tc.Cuts = nil
